@@ -19,7 +19,7 @@
      * numpy fancy assignment  s[idx] = x  is [assign] (position k of idx receives x[k]).
    No proofs in this file. *)
 From Coq Require Import ZArith List Bool QArith Qabs.
-From PAV Require Import Base.Res Base.Check Base.NumOps Base.Sum.
+From PAV Require Import Base.Res Base.Check Base.NumOps Base.Sum Model.C05Chol.
 Import ListNotations.
 
 Section Model.
@@ -120,7 +120,11 @@ Section Model.
   (* fix_constraint_cholesky; the factor U is represented by the system it factors, ZTZ[P_inorder][:, P_inorder] *)
   Definition fix_constraint (A : mat) (b : vec) (tau : T) (st : state) : res state :=
     let q := map (fun ps : bool * T => fst ps && leb F (snd ps) tau) (combine (sP st) (sS st)) in
-    match min_list (map (fun ds : T * T => div F (fst ds) (sub F (fst ds) (snd ds))) (sel q (combine (sD st) (sS st)))) with
+    (* step = d[q] - s_chol[q]; ratio = 0 where step == 0 (a parameter with d = s_chol cannot move; repaired in d0dd2eb: the quotient
+       used to be 0/0 = nan there), d[q] / step elsewhere; alpha = np.min(ratio) *)
+    match min_list (map (fun ds : T * T => let step := sub F (fst ds) (snd ds) in
+                                           if eqb F step zero then zero else div F (fst ds) step)
+                        (sel q (combine (sD st) (sS st)))) with
     | None => Raise OtherException                       (* np.min of an empty array: ValueError *)
     | Some alpha =>
         let d' := map (fun ds : T * T => add F (fst ds) (mul F alpha (sub F (snd ds) (fst ds)))) (combine (sD st) (sS st)) in
@@ -342,13 +346,22 @@ Inductive case :=
 | KRecon (set : settings) (objs : list (@lobj QOps)) (A : qm) (b : qv) (eps : Q) (out : res qv)   (* Inversion.reconstruction *)
 | KMapped (Bs : list qm) (s : qv) (npix : nat) (dict : list qv) (total : qv)          (* mapped_reconstructed_data_dict / _data *)
 | KDict (ps : list nat) (s : qv) (out : list qv)                                      (* reconstruction_dict *)
-| KUnique (pix : list (list Z)) (wts : qm) (lens : list nat) (s : qv) (M : qm) (out : qv).   (* ..._via_image_to_pix_unique_from; M = mapper.mapping_matrix *)
+| KUnique (pix : list (list Z)) (wts : qm) (lens : list nat) (s : qv) (M : qm) (out : qv)    (* ..._via_image_to_pix_unique_from; M = mapper.mapping_matrix *)
+(* the same observation, but a floating-point decision of the solver lies on (or within 1e-6 of) a tie -- exactly symmetric or
+   degenerate systems --, so that the model's and the implementation's tie-breaks may legitimately differ: the comparison with the
+   model is waived, the specification is still evaluated on the implementation's output (it must hold whatever tie-break was used) *)
+| KSpec (k : case)
+(* one call of cholinsertlast / choldeleteindexes made by fnnls_cholesky during a run (Model/C05Chol.v): model output vs implementation
+   output, and the contract U'^T U' = bordered / deleted Gram matrix evaluated on the implementation's output *)
+| KChol (c : ccase).
 
 Definition strip (r : res (@vec QOps * exit_kind * list bool)) : res qv :=
   match r with Ok (d, _, _) => Ok d | Raise e => Raise e end.
 
-Definition agree (k : case) : bool :=
+Fixpoint agree (k : case) : bool :=
   match k with
+  | KSpec _ => true
+  | KChol c => cagree c
   | KFnnls A b eps pinit out => res_eqb qv_close out (strip (@fnnls QOps FUEL A b eps pinit))
   | KPosOnly A b eps uses_p out => res_eqb qv_close out (@reconstruction_positive_only QOps FUEL A b eps uses_p)
   | KPosNeg A b ranges chk out => res_eqb qv_close out (@reconstruction_positive_negative QOps A b ranges chk)
@@ -375,8 +388,10 @@ Fixpoint forced (objs : list (@lobj QOps)) (edge_image : bool) (source_zero : li
   end.
 Definition is_inv_exn {A} (r : res A) : bool := match r with Raise InversionException => true | _ => false end.
 
-Definition spec_ok (k : case) : bool :=
+Fixpoint spec_ok (k : case) : bool :=
   match k with
+  | KSpec k' => spec_ok k'
+  | KChol c => cspec_ok c
   | KFnnls A b eps pinit out =>
       match out with Ok d => @kkt_ok QOps A b d (tol_of b) | Raise _ => false end
   | KPosOnly A b eps uses_p out =>
